@@ -204,6 +204,14 @@ func (a *Agent) handleICMPOpenAck(peerID identity.AgentID, frame *protocol.Frame
 	a.icmpIngressMu.RUnlock()
 
 	if ingress != nil {
+		// An open is answered once: a duplicated or replayed acknowledgement must
+		// not re-key an established session (see handleUDPOpenAck).
+		select {
+		case <-ingress.PendingOpen:
+			return
+		default:
+		}
+
 		ack, err := protocol.DecodeICMPOpenAck(frame.Payload)
 		if err != nil {
 			ingress.closePendingOpen(err)
@@ -233,6 +241,12 @@ func (a *Agent) handleICMPOpenAck(peerID identity.AgentID, frame *protocol.Frame
 
 	if wsSession == nil {
 		return
+	}
+
+	select {
+	case <-wsSession.PendingOpen:
+		return
+	default:
 	}
 
 	ack, err := protocol.DecodeICMPOpenAck(frame.Payload)
